@@ -96,6 +96,9 @@ RowsBody(tidw, tidText, v2, extra, ncols, kind, pb, pa, rows) ==
      (IF hasB THEN BitmapBytes(pb) ELSE <<>>) \o (IF hasA THEN BitmapBytes(pa) ELSE <<>>) \o
      Concat([r \in 1..Len(rows) |-> (IF hasB THEN ImageBytes(rows[r].b) ELSE <<>>) \o (IF hasA THEN ImageBytes(rows[r].a) ELSE <<>>)])
 
+\* GTID / ANONYMOUS_GTID: flags (1), SID (16), GNO (8) [5.7: logical-timestamp type, last committed, sequence number]
+GtidBody(flags, sid16, gno8, tail) == <<flags>> \o sid16 \o gno8 \o tail
+
 RowsType(kind, v2) ==
   CASE kind = "write" -> IF v2 THEN 30 ELSE 23
     [] kind = "update" -> IF v2 THEN 31 ELSE 24
